@@ -206,6 +206,27 @@ pub broadcast proof fn b_sub_at_char(s: Seq<char>, c: char, i: int)
 pub broadcast group group_lem { b_sub_at_char, b_asc_intro, b_slice_ok_ascii, b_slice_ascii, b_ascii_len, b_ascii_boff, b_ascii_cidx }
 
 // ------------------------------------------------------------------ digit strings
+pub open spec fn pow10(n: nat) -> nat decreases n { if n == 0 { 1 } else { 10 * pow10((n - 1) as nat) } }
+/// a string of n digits denotes a number below 10^n; it is ASCII, and it is its own unsigned body
+pub proof fn lemma_digits_bound(s: Seq<char>)
+    requires all_digits(s)
+    ensures digits_val(s) < pow10(s.len()), encode_utf8(s).len() == s.len(), unsigned_body(s) == s, is_ascii_chars(s)
+    decreases s.len()
+{
+    assert forall|i: int| 0 <= i < s.len() implies (#[trigger] s[i] as u32) < 128 by { assert(ascii_digit(s[i])); }
+    is_ascii_chars_encode_utf8(s);
+    if s.len() > 0 {
+        assert(ascii_digit(s[0]));
+        let t = s.drop_last();
+        assert forall|i: int| 0 <= i < t.len() implies ascii_digit(#[trigger] t[i]) by { assert(t[i] == s[i]); }
+        lemma_digits_bound(t);
+        assert(ascii_digit(s.last()));
+        assert(dval(s.last()) <= 9);
+    }
+}
+pub proof fn lemma_pow10_small()
+    ensures pow10(0) == 1, pow10(1) == 10, pow10(2) == 100, pow10(3) == 1000, pow10(4) == 10000, pow10(5) == 100000
+{ reveal_with_fuel(pow10, 7); }
 pub proof fn lemma_digits_val_1(s: Seq<char>)
     requires s.len() == 1
     ensures digits_val(s) == dval(s[0])
